@@ -10,7 +10,7 @@ IFLAGS = ["int_no_leading_zeros_i32_4", "int_no_leading_zeros_u8_3", "int_no_pos
 
 
 def plan(tier, seed):
-    n = 4 if tier == "quick" else 6
+    n = 4 if tier == "quick" else 5
     fl = [H("pf::p1_%s_%s_%d" % (f, m, n), "STANDARD float grammar: accept/reject, count, error kind+index, digit decomposition vs reference recogniser", "arbitrary bytes len<=%d" % n)
           for f in ("f32", "f64") for m in ("partial", "complete")]
     groups = [KGroup("D", fl, timeout=900 if tier == "quick" else 7200, jobs=6, mem_gb=14, stubbing=True, label="STANDARD floats")]
